@@ -19,6 +19,7 @@ mod codec;
 mod sym;
 mod c09;
 mod c03;
+mod c14;
 mod c19;
 
 fn main() {
@@ -50,6 +51,8 @@ fn main() {
         ["c09", "concretise", terms, trace] => c09::concretise(terms, trace),
         ["c03", "replay", path] => c03::replay(path),
         ["c03", "record", runs, path] => c03::record(runs.parse().unwrap(), path),
+        ["c14", "table", path] => c14::table(path),
+        ["c14", "noncodes", n, path] => c14::noncodes(n.parse().unwrap(), path),
         _ => {
             eprintln!("usage: vh <prop> <replay|record> ...");
             std::process::exit(2);
